@@ -17,6 +17,16 @@ objective sum scale*|..|), klaec_decoded_within_caps (converse), klaec_opt_withi
 optimal among all such bounded families, tight error columns) and klaec_wmax_cuts_optimum (Lean counterpart of finding
 C07-laecycles-wmax-cuts-optimum: on s -> a <-> b the LP optimum is 5 while a route within w_max and the repetition caps has
 error 2 — its product 8 exceeds w_max = 4).
+Given-weights branch (solution_weights_superset; LP generator `klaeGivenLP`, same file, proofs FP/Proofs/KLAEGiven*.lean):
+klae_given_sound (every satisfying assignment: each layer decodes to the empty path or a route of the user's graph, at most
+original_k layers non-empty (cap row), layer i carries the i-th given number, |f(e) - sum_{i used} ws[i][e in p_i]| <= ee(e)
+<= w_max on every non-ignored edge, objective = sum scale*ee), klae_given_complete (every choice of <= original_k of the
+given weights by index with routes whose errors stay <= w_max = max(len(ws)*max f, max ws) is a satisfying assignment with
+objective sum scale*|..|; int: integral flows and given numbers), klae_given_opt_transfer (an LP optimum is optimal among
+all such bounded choices, tight error columns), klae_given_adequate / klae_given_optimal (if the given numbers are >= 0 and
+sum to <= w_max every choice is bounded, so the optimum is optimal among all choices) and klae_given_wmax_cuts_optimum (Lean
+counterpart of finding C07-given-weights-wmax-cuts-optimum: a->b 0, b->c->c2 and b->d->d2 all 10, given [12,12], k=2: LP
+optimum 36 while both routes have error 32 — the error 24 on (a,b) exceeds w_max = 20).
 Tie: K2 LP-dump equality of kLeastAbsErrors (plain and given-weights) against klaeLP / klaeGivenLP; K1 evaluation of the
 spec vocabulary (driver op check.klae) on the solutions the real code returns, incl. the model of get_objective_value()
 evaluated on the returned edge_errors against the real get_objective_value(); K5 end-to-end oracle with a brute-force
@@ -37,6 +47,9 @@ THEOREMS = ["FP.Props.C07.klae_sound", "FP.Props.C07.klae_routes_valid", "FP.Pro
             "FP.Props.C07.klaec_complete_within_caps", "FP.Props.C07.klaec_decoded_within_caps",
             "FP.Props.C07.klaec_opt_within_caps", "FP.Props.C07.klaec_opt_tight",
             "FP.Props.C07.klaec_wmax_cuts_optimum",
+            "FP.Props.C07.klae_given_sound", "FP.Props.C07.klae_given_complete",
+            "FP.Props.C07.klae_given_opt_transfer", "FP.Props.C07.klae_given_adequate",
+            "FP.Props.C07.klae_given_optimal", "FP.Props.C07.klae_given_wmax_cuts_optimum",
             "FP.Props.C01.pathcore_sound", "FP.Props.C01.walkcore_sound", "FP.Props.C01.walk_routes_valid",
             "FP.Props.C12.binProd_exact", "FP.Props.C04.intProdQ_sound"]
 IMPORTS = ["FP.Props.C07", "FP.Props.C01", "FP.Props.C12", "FP.Props.C04"]
@@ -44,13 +57,21 @@ K2_ADAPTERS = ["klae", "klaec"]
 RULE = ("K2: random kLeastAbsErrors configurations (scaling incl. 0, ignore sets, additional starts/ends, given weights, "
         "constraints, lengths, option flags). K5: random instances with arbitrary non-negative integer values <= 4 "
         "(conserving superpositions perturbed, or independent draws), DAG classes <= 6 edges, cyclic classes <= 5 edges, "
-        "k in 1..3, error_scaling in {0,1/4,1/2,1}, ignore sets, additional starts/ends, solution_weights_superset, both "
+        "k in 1..3, error_scaling in {0,1/4,1/2,1}, ignore sets, additional starts/ends, solution_weights_superset "
+        "(1..3 numbers drawn from the flow values, now and then also numbers above the largest flow value), both "
         "weight types; the oracle enumerates all k-multisets of admissible routes (cyclic: walks with edge multiplicity "
         "<= 2) and all weight vectors on the grid 0..max f (step 1 for int, 1/2 for float; exact on DAGs by "
         "wmax_adequate + vertex argument for k <= 3) and recomputes errors with Fractions. Non-trivial: solved instance "
         "whose optimum is positive or that has >= 2 routes of non-zero weight.")
 MODEL_SCOPE = ("modelled and proven: DAG MILP route of kLeastAbsErrors without subpath constraints / length attribute for "
-               "completeness and optimality (soundness: all configurations); given-weights LP modelled (K2) but not proven; "
+               "completeness and optimality (soundness: all configurations); given-weights branch (klaeGivenLP, tied by K2): "
+               "soundness for every configuration (klae_given_sound), completeness and optimum transfer without subpath "
+               "constraints / length attribute for the choices of <= original_k given weights (by index) whose per-edge errors "
+               "stay <= w_max = max(len(superset)*max f, max superset), integral flows and given numbers for weight_type=int "
+               "(klae_given_complete, klae_given_opt_transfer); optimality among all choices only when the given numbers are "
+               ">= 0 and sum to <= w_max (klae_given_optimal) — otherwise it is false for the code "
+               "(klae_given_wmax_cuts_optimum, finding C07-given-weights-wmax-cuts-optimum); the rounding of non-integral "
+               "given numbers in get_solution() for weight_type=int is not modelled; "
                "cyclic class kLeastAbsErrorsCycles (edge mode, safety optimisations off; LP generator klaecLP tied by K2): "
                "soundness for every configuration incl. subset constraints and empty walks (klaec_sound); completeness and "
                "optimum transfer only for families of walks within the repetition caps whose products weight x traversals "
@@ -162,6 +183,16 @@ def lae_case(ctx, inst, suite="K5.lae", brute=True):
                 if capped is None or capped >= total or close(total, capped, wint):
                     what += (f" — explained by the column bound w_max = k*max f = {show(wmax)}: every better choice needs "
                              f"weight x multiplicity (pi) or an edge error (ee) above w_max")
+            elif inst.get("given_weights") is not None:
+                # diagnosis: is the gap explained by the bound of the error columns,
+                # w_max = max(len(superset) * weight_type(max f), max(superset)) ?  (klae_given_opt_transfer: the LP optimum
+                # is optimal among the choices whose per-edge errors stay <= w_max)
+                W = [frac(x) for x in inst["given_weights"]]
+                wmax = max(len(W) * (Fraction(int(ug.maxf)) if wint else ug.maxf), max(W + [Fraction(0)]))
+                capped = errors.lae_optimum(ug, None, wint, given=inst["given_weights"], k_user=inst["k"], cap=wmax)
+                if capped is not None and close(total, capped, wint):
+                    what += (f" — explained by the column bound w_max = max(len(superset)*max f, max(superset)) = {show(wmax)} "
+                             f"of the error columns: every better choice has an edge error above w_max")
             ctx.violation(what, dict(view, brute_force_optimum=qstr(opt)), site=f"{cls}.optimality")
         elif total < opt and not close(total, opt, wint) and not models.is_cyc(cls):
             ctx.violation(f"{cls}: returned solution has total error {show(total)} below the optimum {show(opt)} over all "
@@ -208,6 +239,9 @@ def with_given_weights(rng, inst):
     wint = inst["weight_type"] == "int"
     vals = sorted({frac(x[2]) for x in inst["flow"]} | {Fraction(1)})
     vals = [v for v in vals if v > 0]
+    if rng.random() < 0.3:       # given numbers above the largest flow value (their sum may exceed the bound w_max)
+        top = max(vals)
+        vals = vals + [top + 1, top + 2, 2 * top]
     ws = [rng.choice(vals) for _ in range(rng.randint(1, 3))]
     inst = dict(inst, given_weights=[qstr(v) for v in ws], k=rng.randint(1, len(ws)))
     return inst
